@@ -4,6 +4,7 @@ import (
 	"context"
 	"fmt"
 
+	"github.com/folbricht/desync"
 	"github.com/spf13/cobra"
 )
 
@@ -47,7 +48,7 @@ func runList(ctx context.Context, opt listOptions, args []string) error {
 		// See if we're meant to stop
 		select {
 		case <-ctx.Done():
-			return nil
+			return desync.Interrupted{}
 		default:
 		}
 	}
